@@ -102,7 +102,8 @@ def one_case(gs1, ais, rng, tier, viols, cells, counters, forced=None):
             from stdnum import ean
             raw = raw[:13] + ean.calc_check_digit(raw[:13])
         if ai == '8007':
-            raw = rng.choice(['NL91ABNA0417164300', 'GB82WEST12345698765432', 'BE71096123456769', 'nl91abna0417164300', 'Gb82West12345698765432'])
+            raw = rng.choice(['NL91ABNA0417164300', 'GB82WEST12345698765432', 'BE71096123456769', 'nl91abna0417164300', 'Gb82West12345698765432',
+                              'NO0500001234566', 'ES7921000813610123456789', 'ME25505000012345678951', 'NO9386011117947'])
         if props.get('type', 'str') == 'str' and (raw != raw.strip()):
             raw = raw.strip() or 'A'
         items.append((ai, props, raw))
@@ -329,6 +330,39 @@ def mapping_first(gs1, ais, rng, tier, viols, cells, counters):
     return evals
 
 
+def context_independence(gs1, ais, rng, tier, viols, cells, counters):
+    """The caller's decimal context (precision, rounding) is not an argument: decoding, validating and encoding give
+    the same under a low-precision context as under the default one."""
+    import decimal
+    evals = 0
+    for ai, props in ais:
+        if props.get('type') != 'decimal':
+            continue
+        for shape in ('max', 'max', 'random'):
+            try:
+                raw = gs1gen.raw_value(props['format'], 'decimal', rng, shape, max_decimals=3)
+            except gs1gen.UnsupportedFormat:
+                break
+            x = ai + raw
+            base = (C.outcome(gs1.info, x), C.outcome(gs1.validate, x))
+            for prec, rounding in ((5, decimal.ROUND_DOWN), (3, decimal.ROUND_HALF_EVEN), (1, decimal.ROUND_UP)):
+                with decimal.localcontext() as ctx:
+                    ctx.prec = prec
+                    ctx.rounding = rounding
+                    here = (C.outcome(gs1.info, x), C.outcome(gs1.validate, x))
+                    enc = C.outcome(gs1.encode, base[0][1]) if base[0][0] == 'ok' else None
+                enc0 = C.outcome(gs1.encode, base[0][1]) if base[0][0] == 'ok' else None
+                evals += 3
+                cells.add(('decimal-context', fmt_class(props), prec))
+                counters['decimal_context_cases'] = counters.get('decimal_context_cases', 0) + 1
+                if here != base or enc != enc0:
+                    add(viols, 'C16|depends-on-decimal-context|%s' % fmt_class(props),
+                        'element %r: info/validate/encode give %r / %r under decimal precision %d but %r / %r under the default context' % (
+                            x, here, enc, prec, base, enc0),
+                        {'decimal_context': True, 'x': x, 'sep': '', 'prec': prec})
+    return evals
+
+
 def work(shard, tier):
     from stdnum import gs1_128
     rng = C.rng_for('C16', shard['name'])
@@ -349,6 +383,8 @@ def work(shard, tier):
         counters['cases'] += 1
     if shard['part'] == 0:
         evals += mapping_first(gs1_128, ais, rng, tier, viols, cells, counters)
+    if shard['part'] == 1 % shard['parts']:
+        evals += context_independence(gs1_128, ais, rng, tier, viols, cells, counters)
     samples = counters.pop('_samples')
     return {'evaluations': max(evals, 1), 'nontrivial': 0, 'nontrivial_keys': ['|'.join(map(str, c)) for c in cells],
             'violations': list(viols.values()), 'samples': samples, 'counters': counters, 'maxes': {'ais_in_registry': len(ais)}}
@@ -363,6 +399,15 @@ def finish(agg, tier):
 def replay(w):
     from stdnum import gs1_128
     viols = {}
+    if w.get('decimal_context'):
+        import decimal
+        base = (C.outcome(gs1_128.info, w['x']), C.outcome(gs1_128.validate, w['x']))
+        with decimal.localcontext() as ctx:
+            ctx.prec = w['prec']
+            here = (C.outcome(gs1_128.info, w['x']), C.outcome(gs1_128.validate, w['x']))
+        if here != base:
+            add(viols, 'C16|depends-on-decimal-context|replay', '%r vs %r' % (here, base), w)
+        return list(viols.values())
     if w.get('mapping_first'):
         import datetime  # noqa: F401
         val = eval(w['value'], {'datetime': datetime})
